@@ -80,6 +80,62 @@ func c17Conservation(c *Ctx, add *ssa.Function) {
 			}
 		}
 	})
+	// `for next, ok := buf[seq]; ok; next, ok = buf[seq] {…}`: the lookup is written twice (init and
+	// post statement) and the two results merge in φs at the loop head
+	var okPhi, ptPhi *ssa.Phi
+	var ptSet map[ssa.Value]bool // the looked-up point when it is kept in a local instead of a φ
+	if len(lookups) == 2 {
+		exts := func(idx int) map[ssa.Value]bool {
+			m := map[ssa.Value]bool{}
+			for _, lk := range lookups {
+				for _, r := range refs(lk) {
+					if ex, isEx := r.(*ssa.Extract); isEx && ex.Index == idx {
+						m[ex] = true
+					}
+				}
+			}
+			return m
+		}
+		find := func(want map[ssa.Value]bool) *ssa.Phi {
+			var out *ssa.Phi
+			for v := range want {
+				for _, r := range refs(v) {
+					if phi, isPhi := r.(*ssa.Phi); isPhi && len(phi.Edges) == len(want) {
+						all := true
+						for _, e := range phi.Edges {
+							if !want[e] {
+								all = false
+							}
+						}
+						if all {
+							out = phi
+						}
+					}
+				}
+			}
+			return out
+		}
+		okPhi, ptPhi = find(exts(1)), find(exts(0))
+		ptSet = exts(0)
+		if okPhi != nil && (ptPhi == nil || okPhi.Block() == ptPhi.Block()) {
+			// the in-loop lookup is the one the rule below reasons about; the initial one feeds the same φs
+			inLoop := lookups[1]
+			if okPhi.Block().Dominates(lookups[0].Block()) && lookups[0].Block() != okPhi.Block() {
+				inLoop = lookups[0]
+			}
+			other := lookups[0]
+			if other == inLoop {
+				other = lookups[1]
+			}
+			if isSeq(other.Index) && other.CommaOk {
+				lookups = []*ssa.Lookup{inLoop}
+			} else {
+				okPhi, ptPhi = nil, nil
+			}
+		} else {
+			okPhi, ptPhi = nil, nil
+		}
+	}
 	if len(ins) != 1 || len(lookups) != 1 || len(dels) != 1 || len(adds) != 1 || len(seqStores) != 1 {
 		c.Fail(key, rule, fmt.Sprintf("buffer inserts=%d lookups=%d deletes=%d series adds=%d seq stores=%d; want one each (a different buffering scheme must be re-verified by hand)", len(ins), len(lookups), len(dels), len(adds), len(seqStores)), c.fnAt(add))
 		return
@@ -129,6 +185,9 @@ func c17Conservation(c *Ctx, add *ssa.Function) {
 		ok, why = false, "release does not look up and delete exactly the expected sequence number"
 	}
 	header := loopHeaderOf(lk.Block())
+	if okPhi != nil {
+		header = okPhi.Block()
+	}
 	if ok && header == nil {
 		ok, why = false, "release is not a loop"
 	}
@@ -139,6 +198,9 @@ func c17Conservation(c *Ctx, add *ssa.Function) {
 			if ex, isEx := r.(*ssa.Extract); isEx && ex.Index == 1 {
 				okEx = ex
 			}
+		}
+		if okPhi != nil {
+			okEx = okPhi
 		}
 		ifi := trueImpliesIf(okEx)
 		if okEx == nil || ifi == nil {
@@ -168,8 +230,11 @@ func c17Conservation(c *Ctx, add *ssa.Function) {
 				pt = ex
 			}
 		}
+		if ptPhi != nil {
+			pt = ptPhi
+		}
 		from := func(v ssa.Value) bool {
-			return flowsFrom(v, func(x ssa.Value) bool { return x == pt })
+			return flowsFrom(v, func(x ssa.Value) bool { return x == pt || okPhi != nil && ptPhi == nil && ptSet[x] })
 		}
 		if pt == nil || !from(sa.Call.Args[0]) || !from(sa.Call.Args[1]) || !from(sa.Call.Args[2]) {
 			ok, why = false, "what is added to the series is not the point released from the buffer"
